@@ -267,6 +267,9 @@ func (x *Exec) randomOp(maxEnt int) (GenOp, bool) {
 		fill(&o, x.subset(comps, 0), 0)
 		o.Vals = FlexMap[int64]{}
 		o.N = 2 + x.rng.Intn(4)
+		if x.Cfg.BatchN > 5 && x.rng.Intn(2) == 0 {
+			o.N = 2 + x.rng.Intn(x.Cfg.BatchN) // large batches: tables beyond the 64-row reset threshold
+		}
 		o.Mode = "fn"
 		if len(o.Add) > 0 && x.rng.Intn(4) == 0 {
 			o.Mode = "noinit"
